@@ -23,6 +23,15 @@ ASSUMPTIONS = ["the explicit shape is enlarged to cover the new common value (pr
 
 @st.composite
 def cases(draw, tier):
+    if draw(st.integers(0, 24)) == 0:
+        # hundreds / thousands of rows, random or sorted, a quarter or only 0.5 % of them outside the favourite category
+        spec = draw(Q.large_specs(c03.AGGS, many_ok=False, min_nd=1, max_k=3))
+        spec["N"] = min(spec["N"], 2500)
+        spec["ignore"] = draw(st.booleans())
+        rmas = [r for r in Q.RMAS if not (r == "plain" and spec["agg"] == "valid_count" and not spec["ignore"])]
+        spec["rma"] = draw(st.sampled_from(rmas))
+        spec["shape_mode"] = draw(st.sampled_from(["explicit", "explicit", "inferred"]))
+        return spec
     spec = draw(c03.cases(tier, max_nd=3, big=False))
     if not spec["dims"]:
         spec = draw(c03.cases(tier, max_nd=3, big=False))
@@ -44,6 +53,9 @@ def evaluate(case, idxs, shape_arg, dense):
 def check(case, rec):
     import numpy
 
+    if case.get("recipe"):
+        rec.note("large recipe case (rows %s, density %s)" % (case.get("rows"), case.get("density")))
+    case = Q.expand(case)
     dense = Q.dense_dims(case)
     nd = len(dense)
     if nd == 0:
